@@ -343,6 +343,8 @@ def m_range(eng, st, args, kwargs, node):
         return VConc("range", (z3.IntVal(0), eng.as_int(args[0])))
     if len(args) == 2:
         return VConc("range", (eng.as_int(args[0]), eng.as_int(args[1])))
+    if len(args) == 3 and isinstance(args[2], VInt) and z3.is_int_value(z3.simplify(args[2].t)) and z3.simplify(args[2].t).as_long() == -1:
+        return VConc("range_down", (eng.as_int(args[0]), eng.as_int(args[1])))
     raise Unsupported("range with step")
 
 
@@ -677,6 +679,9 @@ def m_np_zeros(eng, st, args, kwargs, node):
     if isinstance(n, VInt):
         nt = n.t
         eng.oblige(st, "np.zeros size is non-negative", nt >= 0, "safety", node)
+        dt = kwargs.get("dtype")
+        if isinstance(dt, VConc) and dt.name in ("builtin:int", "int"):
+            return st.alloc(HSeq(nt, lambda k: VInt(0), numpy=True, etype=T.int))
         return st.alloc(HSeq(nt, lambda k: VFloat(0), numpy=True, etype=T.float))
     raise Unsupported("np.zeros(%r)" % (n,))
 
